@@ -5,7 +5,10 @@ import vlib
 
 RT_KEEP = {"init", "call", "ret", "adv", "sk", "env", "srv", "cbb", "hint", "crash"}
 FACETS = [("RetryTrace.tla", "RetryTrace.cfg", RT_KEEP, None)]
-LABELS = ("c07.",)
+# c07.*: hints and overdue deadlines.  A retransmission or completion that is owed when a processing call returns is
+# the same clause seen from the other side ("processing the channel ... retries or fails the query"): a query left
+# in that state has no deadline any more and can never complete.
+LABELS = ("c07.", "c06.retry_not_performed", "c06.completion_not_delivered")
 
 
 def run(ctx):
